@@ -7,6 +7,7 @@ import (
 	"math/big"
 	"os"
 	"path/filepath"
+	"syscall"
 	"sync"
 	"time"
 
@@ -28,13 +29,54 @@ func reload(o *cli.Opts, data []byte, via string, tag string) (*prover.ProvingSy
 		ps := new(prover.ProvingSystem)
 		n, err := ps.UnsafeReadFrom(bytes.NewReader(data))
 		return ps, n, err
-	default: // ReadSystemFromFile
+	case "ReadSystemFromFile(fifo)":
+		// the file arrives through a named pipe (`--keys-file <(zstd -dc keys.zst)`): no size, no seeking
+		path := filepath.Join(o.Scratch, "c11-"+tag+".fifo")
+		if err := syscall.Mkfifo(path, 0o644); err != nil {
+			return nil, 0, err
+		}
+		defer os.Remove(path)
+		wdone := make(chan struct{})
+		go func() {
+			defer close(wdone)
+			w, err := os.OpenFile(path, os.O_WRONLY, 0)
+			if err != nil {
+				return
+			}
+			w.Write(data)
+			w.Close()
+		}()
+		ps, err := prover.ReadSystemFromFile(path)
+		// release a writer the reader never met (reader failed before opening, or stopped reading early)
+		if d, e := os.OpenFile(path, os.O_RDONLY|syscall.O_NONBLOCK, 0); e == nil {
+			<-wdone
+			d.Close()
+		} else {
+			<-wdone
+		}
+		return ps, int64(len(data)), err
+	default: // ReadSystemFromFile, through a plain path or through links to the file
 		path := filepath.Join(o.Scratch, "c11-"+tag+".ps")
 		if err := os.WriteFile(path, data, 0o644); err != nil {
 			return nil, 0, err
 		}
 		defer os.Remove(path)
-		ps, err := prover.ReadSystemFromFile(path)
+		open := path
+		switch via {
+		case "ReadSystemFromFile(symlink)":
+			open = filepath.Join(o.Scratch, "c11-"+tag+".current")
+			if err := os.Symlink(filepath.Base(path), open); err != nil {
+				return nil, 0, err
+			}
+			defer os.Remove(open)
+		case "ReadSystemFromFile(hardlink)":
+			open = filepath.Join(o.Scratch, "c11-"+tag+".hard")
+			if err := os.Link(path, open); err != nil {
+				return nil, 0, err
+			}
+			defer os.Remove(open)
+		}
+		ps, err := prover.ReadSystemFromFile(open)
 		return ps, int64(len(data)), err
 	}
 }
@@ -101,6 +143,9 @@ func runC11(o *cli.Opts, run *evid.Run) {
 				run.Add("files_with_depth_batch_header", 1)
 			}
 			via := []string{"UnsafeReadFrom", "ReadSystemFromFile"}[i%2]
+			if i%2 == 1 && (i/2)%2 == 1 { // every other file read goes through a link or a pipe
+				via = []string{"ReadSystemFromFile(symlink)", "ReadSystemFromFile(fifo)", "ReadSystemFromFile(hardlink)"}[(i/4)%3]
+			}
 			back, rn, err := reload(o, data, via, fmt.Sprint(i, raw))
 			if err != nil {
 				fail(via + " rejects a file just written: " + err.Error())
@@ -362,6 +407,7 @@ func runC11(o *cli.Opts, run *evid.Run) {
 		}
 	})
 	run.Stage("real")
+	run.Require("reloads through a symlink, a hard link or a named pipe", run.ClassTally("small/raw/ReadSystemFromFile(symlink)").Cases+run.ClassTally("small/compressed/ReadSystemFromFile(fifo)").Cases+run.ClassTally("small/raw/ReadSystemFromFile(hardlink)").Cases, 10)
 	run.Require("small systems round-tripped", run.ClassTally("small/raw/UnsafeReadFrom").Cases+run.ClassTally("small/raw/ReadSystemFromFile").Cases, 100)
 	run.Require("real systems via CLI conversion", run.ClassTally("real/converted-to-raw/UnsafeReadFrom").Cases, 2)
 	run.Require("real compressed round trips", run.ClassTally("real/compressed/ReadSystemFromFile").Cases, 2)
